@@ -1,16 +1,11 @@
 """C01 - a model definition is assembled into exactly the equations it describes.
 
- S1 R-EFFECT/R-PAIR  per transition type the sibling builders make exactly the signed
-                     updates B:{+dest} D:{-orig} T:{-orig,+dest}; ode accumulates
-                     magnitude*rate, the state-change matrix magnitude, in the event's column
- S2 R-IDX            rate vector row k and matrix column k come from the same enumeration
- S3 R-ACCUM          accumulators only updated additively; all of them summed into the ODE;
-                     explicit ODE terms added at the origin state, same in both builders
- S4 R-ARGORDER       symbol order = value order = (states, t, parameters); parameter values
-                     placed by name look-up; every compile back-end gets (expr, args) alike
- S5 R-DERIVED        derived parameters are substituted for all of them, stored substituted
- S6 R-SHAPE          state-change matrix registered as a matrix; output shaping closures
-                     flatten ('vec') or pass through ('mat') and nothing else
+ S1-S3 R-EFFECT     the seven symbolic builders, interpreted on enumerated model definitions (rules/buildx.py), return entry by
+                    entry what the property defines: V[i,e] = signed magnitudes, rates[e], ode = V*rates + explicit terms
+       R-EVENTLIST  every legacy route (add_transition / add_birth_death / add_event) stores the event the builders then read
+ S4 R-ARGORDER      symbol order = value order = (states, t, parameters); parameter values placed by name
+ S5 R-DERIVED       derived parameters are substituted for all of them, stored substituted
+ S6 R-SHAPE         state-change matrix registered as a matrix; output shaping closures flatten ('vec') or pass through ('mat')
 """
 import ast
 
@@ -23,78 +18,8 @@ from ..rules import common as C
 from ..rules import effects as E
 from ..rules.shape import check_shapes
 
-TECHNIQUE = ("static analysis: effect tables of the sibling builders per transition type (R-EFFECT), same-value/"
-             "opposite-sign pairing (R-PAIR), accumulator summation (R-ACCUM), role sequences of symbol and value "
-             "lists (R-ARGORDER), shape inference (R-SHAPE)")
-
-MAGRATE = A.sym("MAG") * A.sym("RATE")
-MAG = A.sym("MAG")
-
-BUILDERS = {
-    # name -> (table, value, types that must be covered)
-    "get_ode_eqn": (E.SIGNED, MAGRATE, ("B", "D", "T")),
-    "get_StateChangeMatrix": (E.with_event(E.SIGNED), MAG, ("B", "D", "T")),
-    "get_BirthDeathVector": ({k: v for k, v in E.SIGNED.items() if k != "T"}, MAGRATE, ("B", "D")),
-}
-
-
-def effect_table_checks(repo, res, cls, names=None, rule="R-EFFECT"):
-    """R-EFFECT + R-PAIR for the signed builders; returns number of branch instances"""
-    n_branches = 0
-    for name, (table, val, must) in BUILDERS.items():
-        if names is not None and name not in names:
-            continue
-        f = repo.resolve_method(cls, name)
-        if f is None:
-            raise AnalysisError("builder %s vanished" % name)
-        sh, effs = E.effects_of(repo, cls, f)
-        res.functions.add(f.construct)
-        if sh.event_loop is None or sh.trans_loop is None:
-            res.undecided(rule, f, "shape", "builder does not loop over events and their transitions in a recognised form")
-            continue
-        teffs = [e for e in effs if e.ttype in ("B", "D", "T") or (e.ttype and "+" in e.ttype)]
-        stray = [e for e in effs if e.ttype is None and e.container not in ("self._ode",) and e.sign != "set"]
-        for e in stray:
-            res.violated(rule, f, "unguarded@%s" % norm(e.stmt)[:50],
-                         "update `%s` inside the event loop is not under a transition-type branch" % norm(e.stmt), node=e.stmt)
-        for tt in must:
-            got = [e for e in teffs if e.ttype == tt]
-            n_branches += 1
-            want = table[tt]
-            gk = sorted((e.key() for e in got), key=str)
-            wk = sorted(want, key=str)
-            tag = "branch(%s)" % tt
-            if not got:
-                res.violated(rule, f, tag, "%s has no update for TransitionType.%s: such processes are silently dropped" % (name, tt))
-                continue
-            ok_shape = gk == wk
-            conts = {e.container for e in got}
-            desc = ", ".join("%s%s[%s]" % (e.sign, e.container, ",".join(e.roles)) for e in got)
-            if not ok_shape:
-                res.violated(rule, f, tag,
-                             "TransitionType.%s in %s performs {%s}; the model semantics require {%s}"
-                             % (tt, name, desc, ", ".join("%s[%s]" % (s, ",".join(r)) for r, s in wk)), node=got[0].stmt)
-                continue
-            bad_val = [e for e in got if e.value is None or e.value != val]
-            if bad_val:
-                e = bad_val[0]
-                res.violated(rule, f, tag,
-                             "TransitionType.%s in %s updates with %r, expected %r (MAG = checkEquation(transition._magnitude), "
-                             "RATE = checkEquation(event.rate))" % (tt, name, e.value, val), node=e.stmt)
-                continue
-            res.holds(rule, f, tag, "%s: {%s} with value %r" % (tt, desc, val), node=got[0].stmt)
-            if tt == "T":
-                a, b = got[0], got[1]
-                pair_ok = (a.value == b.value) and {a.sign, b.sign} == {"+", "-"} and a.roles != b.roles and a.container == b.container
-                res.check(pair_ok, "R-PAIR", f, "pair(T)",
-                          "what leaves the origin is exactly what enters the destination (same value, opposite sign, same container)",
-                          "the two updates of a between-state transition differ: %s / %s" % (a, b), node=a.stmt)
-        extra = {e.ttype for e in teffs} - set(must)
-        for tt in sorted(x for x in extra if x):
-            if tt in table:
-                continue
-            res.violated(rule, f, "branch(%s)" % tt, "%s has an update under unexpected type(s) %s" % (name, tt))
-    return n_branches
+TECHNIQUE = ("static analysis: abstract interpretation of the builders and the legacy routes on enumerated model definitions, "
+             "polynomial identity with the property's matrices; interpretation of the argument assembly; shape inference")
 
 
 def check(repo, res, tier):
@@ -132,136 +57,6 @@ def check(repo, res, tier):
     check_shapes(repo, res, {"vMat", "ode", "eventRateVector", "pureOdeVector"},
                  {"vMat": "one-event or one-state models: firstReaction indexes state_change_mat[:, idx]"})
     check_closures(repo, res)
-
-
-def _check_accum(repo, res, cls):
-    f = repo.resolve_method(cls, "get_ode_eqn")
-    cfg, df = cfg_of(f), dataflow_of(f)
-    sh, effs = E.effects_of(repo, cls, f)
-    accs = sorted({e.container for e in effs if e.ttype in ("B", "D", "T", "ODE")})
-    # additive only
-    bad = [e for e in effs if e.ttype in ("B", "D", "T", "ODE") and e.sign not in ("+", "-")]
-    res.check(not bad, "R-ACCUM", f, "additive-only", "all contributions are accumulated with += / -=",
-              "a contribution overwrites instead of accumulating: %s (a second process on the same state would replace the first)"
-              % [norm(e.stmt) for e in bad], node=bad[0].stmt if bad else None)
-    # allocation of each accumulator is a zero column of num_state
-    for a in accs:
-        ds = [d for d in df.defs if d.name == a and d.kind == "assign"]
-        ok = len(ds) == 1 and isinstance(ds[0].value, ast.Call) and dotted(ds[0].value.func) in ("sympy.zeros", "zeros") \
-            and not cfg.reaches(sh.event_loop, ds[0].node)
-        res.check(ok, "R-ACCUM", f, "zero-init(%s)" % a, "%s starts as a zero vector outside the loops" % a,
-                  "%s is not initialised once to zeros before the loops" % a, node=ds[0].stmt if ds else None)
-    # the ODE is the sum of all accumulators, each once
-    stores = [n for n in cfg.stmt_nodes() if n.kind == "stmt" and isinstance(n.ast, ast.Assign)
-              and any(is_self_attr(t, "_ode") for t in n.ast.targets)]
-    if not stores:
-        res.violated("R-ACCUM", f, "sum", "self._ode is never assigned")
-    else:
-        st = stores[0]
-        try:
-            got = A.lift(A.Interp({a: A.sym(a) for a in accs}).ev(df.expand(st.ast.value, st, keep=set(accs))))
-            want = A.Rat.const(0)
-            for a in accs:
-                want = want + A.sym(a)
-            res.check(got == want, "R-ACCUM", f, "sum", "ODE = " + " + ".join(accs),
-                      "the ODE is assembled as %r but contributions are accumulated in %s: some processes never reach the ODE"
-                      % (got, accs), node=st.ast)
-        except A.Undecided as e:
-            res.violated("R-ACCUM", f, "sum", "self._ode = %s is not a plain sum of the accumulators %s (%s)" % (norm(st.ast.value), accs, e), node=st.ast)
-        # the store happens after both loops
-        after = all(not cfg.reaches(st, l) for l in (sh.event_loop, sh.ode_loop) if l is not None)
-        res.check(after, "R-ACCUM", f, "sum-after-loops", "the sum is taken after all contributions were accumulated",
-                  "the ODE is summed before the loops finished", node=st.ast)
-        rets = C.returns_of(f)
-        res.check(all(is_self_attr(r.ast.value, "_ode") for r in rets) and bool(rets), "R-ACCUM", f, "returns-ode",
-                  "returns the assembled ODE", "get_ode_eqn does not return self._ode", node=rets[0].ast if rets else None)
-    # post-processing keeps element i at position i and simplifyEquation is the identity on its argument
-    simp = repo.func(M.M_VERIF, "simplifyEquation")
-    p0 = simp.params[0]
-    ok = True
-    for r in C.returns_of(simp):
-        el = C.tuple_elts(r.ast.value)
-        if not (isinstance(el[0], ast.Name) and el[0].id == p0 and not [d for d in dataflow_of(simp).strong_defs(r, p0) if d.kind != "param"]):
-            ok = False
-    res.check(ok, "R-ACCUM", simp, "identity", "simplifyEquation returns its argument unchanged",
-              "simplifyEquation no longer returns its argument unchanged (the builders store its result as the equation)")
-    for n in cfg.stmt_nodes():
-        st = n.ast
-        if n.kind == "stmt" and isinstance(st, ast.Assign) and isinstance(st.targets[0], ast.Tuple) \
-                and isinstance(st.targets[0].elts[0], ast.Subscript) and is_self_attr(st.targets[0].elts[0].value, "_ode") \
-                and isinstance(st.value, ast.Call) and dotted(st.value.func) == "simplifyEquation":
-            idx = st.targets[0].elts[0].slice
-            arg = st.value.args[0] if st.value.args else None
-            di = df.single_def(n, idx.id) if isinstance(idx, ast.Name) else None
-            da = df.single_def(n, arg.id) if isinstance(arg, ast.Name) else None
-            paired = di is not None and da is not None and di.kind == "for" and da.kind == "for" and di.node.id == da.node.id \
-                and isinstance(di.value, ast.Call) and dotted(di.value.func) == "enumerate" and is_self_attr(di.value.args[0], "_ode") \
-                and di.slot == (0,) and da.slot == (1,)
-            res.check(paired, "R-ACCUM", f, "simplify-in-place", "element i is replaced by its own simplification",
-                      "self._ode[%s] is overwritten with the simplification of `%s`, which is not element %s" % (norm(idx), norm(arg), norm(idx)), node=st)
-    # explicit terms: same effect in both builders
-    g = repo.resolve_method(cls, "get_pureOdeVector")
-    sh2, effs2 = E.effects_of(repo, cls, g)
-    e1 = [(e.roles, e.sign, e.value) for e in effs if e.ttype == "ODE"]
-    e2 = [(e.roles, e.sign, e.value) for e in effs2 if e.ttype == "ODE"]
-    want = [(("origin",), "+", A.sym("ODE_EQ"))]
-    res.check(e1 == want, "R-ACCUM", f, "explicit-terms", "explicit ODE terms are added at their origin state",
-              "explicit ODE terms are applied as %s" % e1)
-    res.check(e2 == want, "R-ACCUM", g, "explicit-terms", "pure-ODE vector adds each explicit term at its origin state",
-              "pure-ODE vector applies explicit terms as %s" % e2)
-    rets = C.returns_of(g)
-    gdf = dataflow_of(g)
-    okr = bool(rets) and all(_same_object(gdf, r, "pure_ode" if effs2 else None, effs2) for r in rets)
-    res.check(okr, "R-ACCUM", g, "returns-vector", "returns the vector it filled", "get_pureOdeVector does not return the vector it filled")
-
-
-def _same_object(df, ret, _unused, effs):
-    if not effs:
-        return False
-    cont = effs[0].container
-    v = ret.ast.value
-    if norm(v) == cont:
-        return True
-    if is_self_attr(v):
-        # self._pureOdeVector = pure_ode ; return self._pureOdeVector
-        for n in df.cfg.stmt_nodes():
-            st = n.ast
-            if n.kind == "stmt" and isinstance(st, ast.Assign) and any(is_self_attr(t, v.attr) for t in st.targets) and norm(st.value) == cont:
-                return df.cfg.dominates(n, ret)
-    return False
-
-
-def _roles_of_concat(expr, df, at, roles):
-    """role sequence of a list concatenation a + b + [c] ...; roles: {normalised text: role}"""
-    e = expr
-    if isinstance(e, ast.BinOp) and isinstance(e.op, ast.Add):
-        l = _roles_of_concat(e.left, df, at, roles)
-        r = _roles_of_concat(e.right, df, at, roles)
-        if l is None or r is None:
-            return None
-        return l + r
-    if isinstance(e, ast.List) and len(e.elts) == 1:
-        e1 = e.elts[0]
-        return [roles.get(norm(e1), "?(%s)" % norm(e1))]
-    if isinstance(e, ast.Call) and dotted(e.func) == "list" and len(e.args) == 1:
-        return _roles_of_concat(e.args[0], df, at, roles)
-    k = norm(e)
-    if k in roles:
-        return [roles[k]]
-    if isinstance(e, ast.Name):
-        ds = df.strong_defs(at, e.id)
-        outs = []
-        for d in ds:
-            if d.kind == "assign" and d.value is not None:
-                outs.append(_roles_of_concat(d.value, df, d.node, roles))
-            elif d.kind == "param":
-                outs.append([roles.get(e.id, "?(%s)" % e.id)])
-            else:
-                outs.append(None)
-        if outs and all(o == outs[0] for o in outs):
-            return outs[0]
-        return None
-    return ["?(%s)" % k]
 
 
 def _check_argorder(repo, res, cls):
